@@ -108,3 +108,36 @@ Example C06_ex2 :
          r_mask := [true; false; false; false]; r_pay := [] |} ]
   = Some [(("a", "qartod", "t"), [Some SUSPECT; Some FAIL; None; Some GOOD])].
 Proof. vm_compute. reflexivity. Qed.
+
+(* the collected data, time, depth and position arrays: row i of array a (0 = data, 1..4 = the axes the
+   run's streams have) under key k holds the value of the LAST context keyed k that covers i — *)
+Theorem C06_axes : forall shape n rs,
+  Forall (wf_ctx shape n) rs ->
+  exists p, collect_pay rs = Some p /\
+    forall k,
+      if keyed k rs
+      then exists arrs, find k p = Some arrs /\
+             (forall a, present shape a = true -> length (nth a arrs []) = n) /\
+             (forall a i, present shape a = true -> (i < n)%nat ->
+                nth i (nth a arrs []) None = pay_from rs k a i None)
+      else find k p = None.
+Proof. exact collect_pay_correct. Qed.
+Print Assumptions C06_axes.
+
+(* — hence equals the SOURCE value on covered rows (the subset array is the source column restricted
+   to the window, C05_rows_exact) and stays masked on rows no context covers *)
+Theorem C06_axes_source : forall shape n rs1 r rs2 k a i col,
+  Forall (wf_ctx shape n) (rs1 ++ r :: rs2) -> present shape a = true -> (i < n)%nat ->
+  pay_covers r k i = true -> (forall r', In r' rs2 -> pay_covers r' k i = false) ->
+  length col = n -> nth a (r_pay r) [] = restrict' (r_mask r) col ->
+  exists p arrs, collect_pay (rs1 ++ r :: rs2) = Some p /\ find k p = Some arrs /\
+    nth i (nth a arrs []) None = Some (nth i col None).
+Proof. exact collect_pay_source. Qed.
+Print Assumptions C06_axes_source.
+
+Theorem C06_axes_masked : forall shape n rs k a i,
+  Forall (wf_ctx shape n) rs -> keyed k rs = true -> present shape a = true -> (i < n)%nat ->
+  (forall r, In r rs -> pay_covers r k i = false) ->
+  exists p arrs, collect_pay rs = Some p /\ find k p = Some arrs /\ nth i (nth a arrs []) None = None.
+Proof. exact collect_pay_masked. Qed.
+Print Assumptions C06_axes_masked.
